@@ -78,7 +78,8 @@ def run_traces(chk: Check, wd, prop: str, tier: str, seed: int, classify, direct
 def short(x: dict) -> str:
     if "k" in x:
         return {"single": f"single {x['pgn']} src{x['src']}", "frame": f"frame F src{x['src']} seq{x['seq']} fc{x['fc']}" + ("" if x["chunk"] else " (truncated)"),
-                "claim": f"claim src{x['src']} name{x['name']}", "unknown": f"unknown src{x['src']}", "bad": "bad input"}.get(x["k"], x["k"])
+                "claim": f"claim src{x['src']} name{x['name']}", "unknown": f"unknown src{x['src']}", "bad": "bad input",
+                "whole": f"whole F src{x['src']}"}.get(x["k"], x["k"])
     return f"{x['ret']} {x['pgn']} src{x['src']} ident{x['ident']}" if x["ret"] == "msg" else x["ret"]
 
 
